@@ -89,7 +89,7 @@ def container_default_value(r, idx):
 # ------------------------------------------------------------------------------------------------ enum receivers (C09)
 def V(name, kind="unit", **o):
     """kind: unit | newtype (ty) | struct (fields)"""
-    d = dict(name=name, kind=kind, rename=None, skip=False, word=False, ty=None, fields=None)
+    d = dict(name=name, kind=kind, rename=None, skip=False, word=False, explicit_not_word=False, ty=None, fields=None)
     d.update(o)
     return d
 
@@ -108,6 +108,9 @@ ENUMS = [
     EN("E3", [V("Alpha"), V("BetaGamma"), V("Dflt", word=True)], rename_all="SCREAMING_SNAKE_CASE"),
     EN("E4", [V("On"), V("Off"), V("Level", "newtype", ty="Opq")], from_word="on", from_none="off", rename_all="lowercase"),
     EN("E5", [V("Loose", "struct", fields=[F("p")]), V("KebabName")], allow_unknown=True, rename_all="camelCase"),
+    # explicit `word = false`: a variant opted out of the bare-word form (only one variant may carry a `word` option at all -
+    # the derive counts `word = false` too; that is derive-time validation, C10)
+    EN("E6", [V("Quiet", explicit_not_word=True), V("Loud"), V("Gone", skip=True)], rename_all="kebab-case"),
 ]
 ENUM_BY_NAME = {e["name"]: e for e in ENUMS}
 
